@@ -46,6 +46,12 @@ var commonAssumptions = []string{
 
 func init() {
 	register(&Def{
+		ID: "C19", Level: "exploration", MinSigs: 20,
+		Rule:        "per shard one history of 60 (thorough 400) blocks is recorded as raw transaction bytes + counterparty packet commitments: orbiter packets carrying the mutated-memo corpus of C14/C15 (error acknowledgements of every class), hostile attributes and packet data, successful transfers, admin messages (valid/invalid/unauthorized), deposits; it is replayed on a reference world, 2 sequential fresh worlds, 3-4 worlds on parallel goroutines and 2-3 fresh processes (fresh map seeds, ASLR); every replay must equal the reference byte for byte in acknowledgement bytes, tx code/codespace/data, ordered events, gas, every block's AppHash, the exported orbiter state, the bank store digest and the decoded map-valued queries. The race-detector build runs the parallel part (see race_reports). non-trivial = every replay comparison; distinct = error-acknowledgement text classes (digits stripped) present in the stream and replay instances",
+		Assumptions: append([]string{"nondeterminism that needs a different machine, architecture or Go version is out of reach", "tx logs (not committed, not in the statement) are compared separately and only counted"}, commonAssumptions...),
+		Run: func(e *fw.Env) { CheckC19(e, nil) },
+	})
+	register(&Def{
 		ID: "C15", Level: "exploration", MinSigs: 300,
 		Rule:        "(1) PRNG-drawn payloads (3 forwarding types x fee lists x passthrough 0..4 KiB) are built through the module's public constructors, marshalled, parsed back: proto-equal payload, usable attributes, and equal to the parse of the harness' independently hand-rendered memo of the same spec; (2) every single-point mutation of every template memo goes through the parser entry point with an acceptance predicate computed from the mutation alone (certainly-malformed, enum numbers/names, type URLs: two-sided; other mutations: either) and a purity check (same memo parsed three times on two parser instances interleaved with other memos: identical result or identical error text); (3) 8 goroutines parse a shared corpus on shared and private parser instances and must reproduce the sequential results. distinct = (template, site, mutation kind, expectation, accepted) tuples and round-trip classes",
 		Assumptions: append([]string{"a protocol identifier is 'supported' at parser level when it is a named, non-zero enum value (IBC included; the missing controller is C05's subject); mismatched (id, attribute type) pairs are C05's subject", "duplicate keys and other mutations without a fixed meaning are held to purity only"}, commonAssumptions...),
